@@ -79,6 +79,10 @@ fn c08_type<P: KS>(out: &mut Out, seed: u64, tier: &Tier, counter: &mut usize) {
     let reps = if tier.thorough { 60 } else { 6 };
     for &k in &ks {
         for rep in 0..reps {
+            // the large-k cases are expensive for the quadratic verified checker: a third of the repetitions
+            if k > 100 && rep % 3 != 0 {
+                continue;
+            }
             *counter += 1;
             if *counter % tier.nshards != tier.shard {
                 continue;
